@@ -15,6 +15,14 @@ CLAIMED = {
             "exhaustive single-allocation-failure sweep (every k of every workload) through a force-included failable allocator, with survive/usable/balance oracle",
             "Only allocation requests of confuse.c along the executed workloads; single failures.",
             "fault injection: exhaustive k-th allocation failure sweep over fixed and generated workloads"),
+    "C03": ("exploration", "5.C03",
+            "exhaustive small-scope enumeration of literals per quoting context against an independent lexer/language model, plus fragment products and random longer literals",
+            "Exhaustive only up to the stated literal length over the stated byte classes; grey zone as listed in the evidence.",
+            "exhaustive bounded enumeration + property-based generation (Hypothesis) against a reference lexer model"),
+    "C04": ("exploration", "5.C04",
+            "exhaustive small-scope enumeration of numeral tokens through parser and string-taking setters under several ambient errno values against a three-valued oracle, plus boundary values",
+            "Exhaustive only up to the stated token length; float expectations from Python's correctly rounded float().",
+            "exhaustive bounded enumeration + boundary values + random longer tokens (Hypothesis), three-valued reference oracle"),
 }
 PENDING = {}
 props = [json.loads(l) for l in open(os.path.join(V, "properties.jsonl"))]
